@@ -1,0 +1,18 @@
+//go:build verif
+
+// Package verifhook provides instrumentation points for the verification
+// machinery. With the "verif" build tag, At forwards to Sink (when set); without
+// the tag it is an empty function and the call sites compile to nothing.
+package verifhook
+
+// Sink receives every instrumentation point. It must be set before the
+// instrumented code runs and may block (the verification harness uses blocking
+// sinks as scheduler gates).
+var Sink func(point string, args ...any)
+
+// At reports that execution reached the named point.
+func At(point string, args ...any) {
+	if s := Sink; s != nil {
+		s(point, args...)
+	}
+}
